@@ -71,7 +71,10 @@ JBuild(e) ==
         LET isKey == "st" \in DOMAIN m
             type == IF "type" \in DOMAIN m THEN m.type ELSE IF isKey THEN CertKey ELSE CertNull
             payload == IF isKey THEN KeyCertPayload(m.st, m.ct) ELSE IF "payload" \in DOMAIN m THEN m.payload ELSE << >> IN
-        << R("C02", "builder_certificate_bytes", r.ok /\ CertCtorValid(type, payload) /\ (isKey => m.st \in 0..65535 /\ m.ct \in 0..65535 /\ "payload" \notin DOMAIN m),
+        << R("C19", "builder_agrees_with_direct_constructor", r.ok /\ isKey /\ m.st \in 0..65535 /\ m.ct \in 0..65535
+                    /\ ("payload" \notin DOMAIN m \/ ("payloadfirst" \in DOMAIN m /\ m.payloadfirst)),
+             r.ser = SerCert(CertKey, KeyCertPayload(m.st, m.ct)), cls),
+           R("C02", "builder_certificate_bytes", r.ok /\ CertCtorValid(type, payload) /\ (isKey => m.st \in 0..65535 /\ m.ct \in 0..65535 /\ ("payload" \notin DOMAIN m \/ ("payloadfirst" \in DOMAIN m /\ m.payloadfirst))),
              r.ser = SerCert(type, payload), cls),
            R("C14", "builder_build_ok_implies_validate_ok", r.ok, r.validok, cls) >>
         \o << R("C14", "valid_value_round_trips", r.ok /\ r.rt.done, r.serok /\ r.rt.ok /\ r.rt.remlen = 0 /\ r.rt.same, cls) >>
